@@ -27,6 +27,7 @@ STRINGS = [
     "é", "名前", "a\\b", "a\\nb", "x\n", "1\n2", "  1", "1 # c", "# c", "yield", "*a", "print 1", "import os",
     "__import__('os').system('true')", "exit()", "1/0", "a.b.c", "Willowbrook29817621+5", "'unterminated", "r'\\d'",
     "b'by'", "f'{x}'", "...", "_", "x y z", "%s", "{0}", "\x00", "\x0c", "\r", "a\r\nb", " ", "\xa0",
+    "\x1c", "\x1f\x85", "\u2003", "\u3000\t", "\u200b", "\u2028", "\ufeff", "1\u2003+\u20031", "\U0001F600", "a\u0301",
 ]
 DASH_STRINGS = ["-", "--", "-5", "-1.5", "--x", "--x=1", "-x", "---", "--=", "-=", "-=x", "--x=", "--x==", "?", "??", "-?",
                 "--?", "-??", "--??", "--help", "-h", "--h", "-help", "--source", "-source", "--help=1", "-h=", "-é", "--1x=2",
